@@ -59,6 +59,7 @@ def shape? : String → Option (Nat × Bool × Bool × Bool)
   | "big" => some (6, true, true, true)
   | "notobj" => some (7, false, false, false)
   | "badjson" => some (8, false, false, false)
+  | "ukey" => some (9, false, false, true)
   | _ => none
 
 def lexLe : List Int → List Int → Bool
@@ -340,7 +341,10 @@ def stepLine (st : St) (line : String) : St × String :=
     match nat? rest "id", nat? rest "r", nat? rest "e", int? rest "c", int? rest "m", nat? rest "k", nat? rest "v",
           (kv? rest "js").bind shape?, bool? rest "sig", nat? rest "sg" with
     | some id, some r, some e, some c, some m, some k, some v, some (code, conf, big, ver), some sig, some sg =>
-      let row : NodeRow := { id, room := some r, ent := e, cdate := c, mdate := m, key := k, sg, val := if code = 1 then 1000 else v + 1000 * code }
+      -- shape `ukey` is the JSON of a sys.UserAuth row (key v, enabled): it conforms to that entity only
+      let conf := if code = 9 then decide (e = 102) else conf
+      let row : NodeRow := { id, room := some r, ent := e, cdate := c, mdate := m, key := k, sg,
+                             val := if code = 1 then 1000 else if code = 9 then 1000000 + 2 * (v % 8) + 1 else v + 1000 * code }
       let ad := (int? rest "ad").getD m
       let asg := (nat? rest "asg").getD sg
       let n : InNode := { row, annDate := ad, annSg := asg, sigOk := sig && ver, conforms := conf, jsonAbsent := code = 1, big }
